@@ -276,6 +276,14 @@ def fvalue_text(fv):
     raise ValueError(fv)
 
 
+def value_text(vtext, v):
+    if vtext == "bool":
+        return "bool:%s" % ("true" if v else "false")
+    if vtext == "str":
+        return "str:s%d" % (v % 4)
+    return "%s:%d" % (vtext, v)
+
+
 def opt(x):
     return None if x is None else x[1]
 
@@ -289,6 +297,15 @@ def canon_model_call(entries, result, fn, modpath, span_on, cur):
         if n[0] == "FnDot":
             return "%s.d%d" % (fn["binds"][n[1]]["name"], n[2])
         return fn["binds"][n[1]]["name"] if n[0] == "FnParam" else "f%d" % n[1]
+    overridden = {cf["name"][1] for cf in fn["attrs"]["fields"] if cf["name"][0] == "param"}
+
+    def ftext(n, v):
+        # the parameter's own field (not a custom field that took its name): i64 / u128 / f64 .. per its Value impl
+        if n[0] == "FnParam" and n[1] not in overridden and v[0] == "FVValue":
+            b = fn["binds"][n[1]]
+            if b.get("vtext"):
+                return value_text(b["vtext"], v[2])
+        return fvalue_text(v)
     ctx = "ctx:caller" if cur else "ctx:none"
     for e in entries:
         k = e if isinstance(e, str) else e[0]
@@ -323,7 +340,7 @@ def canon_model_call(entries, result, fn, modpath, span_on, cur):
             ps = {"ParRoot": "root", "ParCtx": ctx}.get(parent) if isinstance(parent, str) else "explicit:h%d" % parent[1]
             out.append(("new_span", "self", name_default if name is None else "name%d" % name[1], level,
                         modpath if target is None else "tgt%d" % target[1], ps,
-                        tuple("%s=%s" % (fname(n), fvalue_text(v)) for (n, v) in fields)))
+                        tuple("%s=%s" % (fname(n), ftext(n, v)) for (n, v) in fields)))
         elif k == "TFollows":
             out.append(("follows", "self", "h%d" % e[1]))
         elif k == "TEnter":
@@ -378,6 +395,9 @@ def spec_fields(fn, args):
         v = args[b["i"]] if b["i"] < len(args) else 0
         if b["ty"] == "rec":
             txt = "dbg:R%d" % b["i"]
+        elif b.get("vtext"):
+            # a TYPES_FOR_VALUE entry, however its path is spelled: the typed record_* call of its Value impl
+            txt = value_text(b["vtext"], v)
         elif b["rtype"] == "value":
             txt = {"u32": "u64:%d" % v, "bool": "bool:%s" % ("true" if v else "false"), "str": "str:s%d" % (v % 4)}[b["ty"]]
         else:
@@ -553,8 +573,12 @@ def gen_args(rng, fn):
             out.append(rng.randint(0, 1))
         elif b["ty"] == "u32":
             out.append(rng.randint(0, 9))
-        elif b["ty"] == "str":
+        elif b["ty"] in ("str", "vstr"):
             out.append(rng.randint(0, 3))
+        elif b["ty"] == "vbool":
+            out.append(rng.randint(0, 1))
+        elif b["ty"] == "vnum":
+            out.append(rng.randint(1, 9))      # NonZero* spellings need a non-zero value
         else:
             out.append(0)
     return out
@@ -833,7 +857,7 @@ def run_corpus(ctx, rep, which, binname, per_fn, n_multi, label, only_cases=None
                 top = "TPlain" if twin == "p" else "(expand at%d fn%d)" % (f, f)
                 items.append("run %s %s fn%d %s" % (coq_col(col), C.c_args(args, site), f, top))
             terms.append(("r%d" % i, "[%s]" % "; ".join(items)))
-        res = coq_eval(ctx, "From TV Require Import Attr.Model.\nLocal Open Scope N_scope.", terms, prelude=prelude, tag="cases_" + which)
+        res = coq_eval(ctx, "From Coq Require Import String.\nFrom TV Require Import Attr.Model.\nFrom TVGen Require Gen_attr.\nLocal Open Scope N_scope.", terms, prelude=prelude, tag="cases_" + which)
         model = {}
         for i in range(0, len(klist), chunk):
             for k, r in zip(klist[i:i + chunk], res["r%d" % i]):
